@@ -139,6 +139,9 @@ def _module_gconds(ctx):
     ok = any(isinstance(n, _ast.ImportFrom) and n.level == 1 and n.module == "_util" and any(a.name == "html_escape" and a.asname is None for a in n.names) for n in init.body)
     rebound = any(isinstance(n, (_ast.Assign, _ast.FunctionDef)) and "html_escape" in [getattr(t, "id", None) for t in _ast.walk(n) if isinstance(t, _ast.Name) and isinstance(t.ctx, _ast.Store)] + [getattr(n, "name", None)] for n in init.body)
     out.append(GCond("G:htmltools.html_escape:reexport", ok and not rebound, "htmltools.html_escape is htmltools._util.html_escape"))
+    void16 = {"area", "base", "br", "col", "command", "embed", "hr", "img", "input", "keygen", "link", "meta", "param", "source", "track", "wbr"}
+    out.append(GCond("G:_VOID_TAG_NAMES:sixteen", set(ctx.consts.VOID) == void16, f"void names of this run: {sorted(ctx.consts.VOID)} (the statement's 16 void names)"))
+    out.append(GCond("G:_NO_ESCAPE_TAG_NAMES:script-style", set(ctx.consts.NOESC) == {"script", "style"}, f"{sorted(ctx.consts.NOESC)}"))
     cls = ctx.src.find_class("htmltools._core.HTML")
     meths = [n.name for n in cls.body if isinstance(n, _ast.FunctionDef)]
     out.append(GCond("G:HTML:no__iadd__", "__iadd__" not in meths and "__mul__" not in meths, f"HTML defines {meths}: += is + (A4)"))
